@@ -10,17 +10,21 @@
             design spec Cpx (including the sizes asked from recv and the bytes written).
 
    trace  = [id, mode \in {"codec","transport","router","tcp"}, src \in {"spec","code"},
-             pkts, stream, rcv (receiver ids), ev]
+             pkts, stream, rcv (receiver ids), snd (sender ids), ev]
    events = codec(p,w,o)  reg(r,f)  connect(b)  start  need(n)  recv(n,k)  pkt(o)  rx(r,f,o)
-            crtp(c)  send(c,b)  run(reads)         -- see harness/props/C18.py  *)
+            crtp(c)  run(reads)
+            sendb(s,it,fresh)  sender thread s enters send_packet / sendPacket with item it
+            wr(s,b)            one socket write of bytes b (issued by sender s), in wire order
+            sende(s,ok,same)   the call returned (ok = 0: it raised); same = 1: the caller's packet
+                               object reads as before the call         -- see harness/props/C18.py  *)
 EXTENDS Naturals, Sequences, FiniteSets, TLC, Json, IOUtils
 
 Traces == JsonDeserialize(IOEnv.TRACE_FILE)
 
 VARIABLES tid, l,
-          mreads, mdeliv, mcrtps, msent, mtx, mregs, mstarted, bad, badAt,     \* monitor
+          mreads, mdeliv, mcrtps, msent, mtx, mopen, mregs, mstarted, bad, badAt,     \* monitor
           conf, confAt,                                                       \* conformance verdict
-          mode, phase, pkts, stream, rfn, hasq, queues, pos, rd, need, buf, inq, tx, sent,
+          mode, phase, pkts, stream, rfn, hasq, queues, pos, rd, need, buf, inq, tx, sent, spc, sobj,
           reads, deliv, crtps                                                 \* design-spec variables
 
 T == Traces[tid]
@@ -29,7 +33,7 @@ Packets == {}
 MaxPackets == 0
 NR == 0
 RFns == {}
-Crtps == {}
+SendSets == <<>>
 MaxSends == 1000000
 Mode == "trace"
 LateRegister == FALSE
@@ -38,9 +42,9 @@ Bug == "none"
 D == INSTANCE Cpx
 P == INSTANCE CpxProps
 
-specvars == <<mode, phase, pkts, stream, rfn, hasq, queues, pos, rd, need, buf, inq, tx, sent,
+specvars == <<mode, phase, pkts, stream, rfn, hasq, queues, pos, rd, need, buf, inq, tx, sent, spc, sobj,
               reads, deliv, crtps>>
-monvars == <<mreads, mdeliv, mcrtps, msent, mtx, mregs, mstarted>>
+monvars == <<mreads, mdeliv, mcrtps, msent, mtx, mopen, mregs, mstarted>>
 Ev == T.ev[l]
 
 \* the input must lie in the property's domain; a stream the harness built itself must be the
@@ -53,7 +57,7 @@ InputClause(t) ==
 Init == /\ tid \in 1..Len(Traces)
         /\ l = 1
         /\ mreads = <<>> /\ mdeliv = <<>> /\ mcrtps = <<>> /\ msent = <<>> /\ mtx = <<>>
-        /\ mregs = {} /\ mstarted = FALSE
+        /\ mopen = {} /\ mregs = {} /\ mstarted = FALSE
         /\ bad = InputClause(Traces[tid]) /\ badAt = 0
         /\ conf = (Traces[tid].mode = "codec" \/ Traces[tid].stream = P!Stream(Traces[tid].pkts))
         /\ confAt = 0
@@ -63,6 +67,8 @@ Init == /\ tid \in 1..Len(Traces)
         /\ hasq = {} /\ queues = [f \in P!Functions |-> <<>>]
         /\ pos = 0 /\ rd = "idle" /\ need = 0 /\ buf = <<>>
         /\ inq = <<>> /\ tx = <<>> /\ sent = <<>>
+        /\ spc = [s \in {Traces[tid].snd[i] : i \in DOMAIN Traces[tid].snd} |-> "idle"]
+        /\ sobj = [s \in {Traces[tid].snd[i] : i \in DOMAIN Traces[tid].snd} |-> <<>>]
         /\ reads = <<>> /\ deliv = <<>> /\ crtps = <<>>
 
 Conform(A) == IF conf /\ ENABLED A
@@ -88,17 +94,17 @@ MRun == /\ Ev.e = "run"
 
 MReg == /\ Ev.e = "reg"
         /\ mregs' = IF mstarted THEN mregs ELSE mregs \cup {Ev.f}
-        /\ UNCHANGED <<mreads, mdeliv, mcrtps, msent, mtx, mstarted, bad, badAt>>
+        /\ UNCHANGED <<mreads, mdeliv, mcrtps, msent, mtx, mopen, mstarted, bad, badAt>>
         /\ Conform(D!Register(Ev.r, Ev.f))
 
 MConnect == /\ Ev.e = "connect"
             /\ mtx' = mtx \o Ev.b
-            /\ UNCHANGED <<mreads, mdeliv, mcrtps, msent, mregs, mstarted, bad, badAt>>
+            /\ UNCHANGED <<mreads, mdeliv, mcrtps, msent, mopen, mregs, mstarted, bad, badAt>>
             /\ Conform(D!Connect /\ tx' = Ev.b)
 
 MStart == /\ Ev.e = "start"
           /\ mstarted' = TRUE
-          /\ UNCHANGED <<mreads, mdeliv, mcrtps, msent, mtx, mregs, bad, badAt>>
+          /\ UNCHANGED <<mreads, mdeliv, mcrtps, msent, mtx, mopen, mregs, bad, badAt>>
           /\ Conform(D!Start)
 
 MNeed == /\ Ev.e = "need"
@@ -114,33 +120,46 @@ MRecv == /\ Ev.e = "recv"
 MPkt == /\ Ev.e = "pkt"
         /\ mreads' = Append(mreads, Ev.o)
         /\ Fail(P!ReadsClause(T.pkts, mreads', FALSE))
-        /\ UNCHANGED <<mdeliv, mcrtps, msent, mtx, mregs, mstarted>>
+        /\ UNCHANGED <<mdeliv, mcrtps, msent, mtx, mopen, mregs, mstarted>>
         /\ Conform(D!Deliver /\ reads'[Len(reads')] = Ev.o)
 
 \* receivePacket(f) called by receiver r returned o
 MRx == /\ Ev.e = "rx"
        /\ mdeliv' = Append(mdeliv, <<Ev.r, Ev.f, Ev.o>>)
        /\ Fail(P!RouteClause(T.pkts, mregs, mdeliv', FALSE))
-       /\ UNCHANGED <<mreads, mcrtps, msent, mtx, mregs, mstarted>>
+       /\ UNCHANGED <<mreads, mcrtps, msent, mtx, mopen, mregs, mstarted>>
        /\ Conform(D!Get(Ev.r) /\ deliv'[Len(deliv')] = <<Ev.r, Ev.f, Ev.o>>)
 
 \* the CRTP driver's receive_packet returned c
 MCrtp == /\ Ev.e = "crtp"
          /\ mcrtps' = Append(mcrtps, Ev.c)
          /\ Fail(P!DownClause(T.pkts, mcrtps', FALSE))
-         /\ UNCHANGED <<mreads, mdeliv, msent, mtx, mregs, mstarted>>
+         /\ UNCHANGED <<mreads, mdeliv, msent, mtx, mopen, mregs, mstarted>>
          /\ Conform(D!UserRecv /\ crtps'[Len(crtps')] = Ev.c)
 
-\* send_packet(c) returned; b = the bytes it wrote to the socket
-MSend == /\ Ev.e = "send"
-         /\ msent' = Append(msent, Ev.c) /\ mtx' = mtx \o Ev.b
-         /\ Fail(P!UpClause(msent', mtx'))
-         /\ UNCHANGED <<mreads, mdeliv, mcrtps, mregs, mstarted>>
-         /\ Conform(D!SendCrtp(Ev.c) /\ tx' = tx \o Ev.b)
+\* sender s enters send_packet (it = <<0, crtp>>) or CPX.sendPacket (it = <<1, outcome>>)
+MSendB == /\ Ev.e = "sendb"
+          /\ msent' = Append(msent, <<Ev.s, Ev.it>>) /\ mopen' = mopen \cup {Ev.s}
+          /\ Fail(IF P!OwnKeys(msent') THEN "ok" ELSE "BadInput")
+          /\ UNCHANGED <<mreads, mdeliv, mcrtps, mtx, mregs, mstarted>>
+          /\ Conform(D!SendBegin(Ev.s, Ev.it, Ev.fresh = 1))
+
+\* one socket write, in wire order
+MWr == /\ Ev.e = "wr"
+       /\ mtx' = mtx \o Ev.b
+       /\ UNCHANGED <<mreads, mdeliv, mcrtps, msent, mopen, mregs, mstarted, bad, badAt>>
+       /\ Conform(D!Write(Ev.s) /\ tx' = tx \o Ev.b)
+
+\* the call returned; the uplink clause is evaluated whenever no call is in progress
+MSendE == /\ Ev.e = "sende"
+          /\ mopen' = mopen \ {Ev.s}
+          /\ Fail(IF mopen' = {} THEN P!UpClause(msent, mtx) ELSE "ok")
+          /\ UNCHANGED <<mreads, mdeliv, mcrtps, msent, mtx, mregs, mstarted>>
+          /\ Conform(D!SendEnd(Ev.s) /\ Ev.ok = 1 /\ Ev.same = 1)
 
 Step == /\ l <= Len(T.ev)
         /\ l' = l + 1 /\ UNCHANGED tid
-        /\ (MCodec \/ MRun \/ MReg \/ MConnect \/ MStart \/ MNeed \/ MRecv \/ MPkt \/ MRx \/ MCrtp \/ MSend)
+        /\ (MCodec \/ MRun \/ MReg \/ MConnect \/ MStart \/ MNeed \/ MRecv \/ MPkt \/ MRx \/ MCrtp \/ MSendB \/ MWr \/ MSendE)
 
 \* end of the execution: nothing can happen any more (T.fin = quiescence facts from the scheduler)
 FinalClause ==
